@@ -70,9 +70,9 @@ func (latches *Latches) VSnapshot() []VSlot {
 }
 
 // scheduler glue observers / helpers for the script mode of the driver
-func (scheduler *LatchesScheduler) VLatches() *Latches      { return scheduler.latches }
+func (scheduler *LatchesScheduler) VLatches() *Latches       { return scheduler.latches }
 func (scheduler *LatchesScheduler) VLastRecycleTime() uint64 { return scheduler.lastRecycleTime }
-func (scheduler *LatchesScheduler) VPending() int           { return len(scheduler.unlockCh) }
+func (scheduler *LatchesScheduler) VPending() int            { return len(scheduler.unlockCh) }
 func (scheduler *LatchesScheduler) VClosed() bool {
 	scheduler.RLock()
 	defer scheduler.RUnlock()
